@@ -145,13 +145,25 @@ def site_excluded_for(ctx, m, fn, site, state, self_class=None):
         it.ev = ev
         return it
     conds = flow.path_conditions(site)
-    verdicts = []
+    unknown_relevant = False
     for c in conds:
         v = tri(factory, c.test)
         if v is not None and v != c.polarity:
             return True
-        verdicts.append(v is not None)
-    return False if conds and all(verdicts) else (None if conds else False)
+        if v is None and _mentions_cell_state(c.test, fn):
+            unknown_relevant = True
+    return None if unknown_relevant else False
+
+
+def _mentions_cell_state(test, fn):
+    for x in ast.walk(test):
+        if isinstance(x, ast.Attribute) and x.attr in ('formula', 'need_update', 'evaluate', 'value'):
+            return True
+        if isinstance(x, ast.Subscript) and isinstance(x.value, ast.Attribute) and x.value.attr == 'cells':
+            return True
+        if isinstance(x, ast.Name) and _name_is_cell(x.id, fn):
+            return True
+    return False
 
 
 def _name_is_cell(name, fn):
